@@ -327,7 +327,10 @@ func (epc *EpochsContext) GetBeaconCommittee(slot Slot, index CommitteeIndex) ([
 
 func (epc *EpochsContext) GetCommitteeCountPerSlot(epoch Epoch) (uint64, error) {
 	epochComms, err := epc.getEpochComms(epoch)
-	return uint64(len(epochComms[0])), err
+	if err != nil {
+		return 0, err
+	}
+	return uint64(len(epochComms[0])), nil
 }
 
 func (epc *EpochsContext) GetBeaconProposer(slot Slot) (ValidatorIndex, error) {
